@@ -146,6 +146,9 @@ func runC01(c *Ctx) {
 	// later (or concurrent) Match, or a document added afterwards, can observe. A list cached in the classifier or a
 	// package-level scratch object makes the copy of a later-added document, or of a call that overlaps another, go missing.
 	matchReadOnly(c, p, "R04.1")
+	// shared with C06: what stands in front of a copy must not change how the copy's lines are tokenized - the position
+	// offset left by a hyphenated word in the context ends with its line (R06.9/R06.10)
+	checkMidLineReset(c, p)
 	ts := p.Func(v2pkg, "tokenizeStream")
 	if !c.R.Anchor(ts != nil, "v2.tokenizeStream") {
 		return
@@ -501,6 +504,12 @@ func runC05(c *Ctx) {
 	if p == nil {
 		return
 	}
+	// shared with C06: the "words of this line were already handed over" offset belongs to one line (R06.9/R06.10): when it
+	// survives a line that holds blanks only, trailing blanks change which words of the next line are list markers
+	checkMidLineReset(c, p)
+	// shared with C03: each notice line is reported by a pseudo-match of its own, built once (R03.13) - a pseudo-match that
+	// is extended when the next line is a notice too makes the number of matches depend on blank lines between them
+	checkMatchImmutable(c, p)
 	ts := p.Func(v2pkg, "tokenizeStream")
 	if !c.R.Anchor(ts != nil, "v2.tokenizeStream") {
 		return
@@ -1424,6 +1433,11 @@ func runC11(c *Ctx) {
 	if p == nil {
 		return
 	}
+	// shared with C06: a cleaned word is a fixed point of the tokenizer (R06.4: the scheme rewrite also runs on the cleaned
+	// word), and whether a line is a notice is decided for every line, wherever it starts (R06.6): otherwise Normalize writes
+	// words that Match of the normalized text treats differently
+	checkSchemeRewrite(c, p)
+	checkNoticePatternsUnconditional(c, p)
 	ts := p.Func(v2pkg, "tokenizeStream")
 	if !c.R.Anchor(ts != nil, "v2.tokenizeStream") {
 		return
@@ -1764,6 +1778,116 @@ func checkMidLineReset(c *Ctx, p *core.Prog) {
 			"the position offset handed over with the next buffer is set to a non-zero constant on this path", "the words that follow on the same line are collected in a fresh buffer and the first of them gets position 0: if it looks like a list marker (\"2)\", \"10.\") it is dropped, so a hyphen-split word changes the tokens that follow it")
 	}
 	c.R.Count("R06.9:mid-line resets of the line buffer", n)
+
+	// R06.10: the other direction. The offset says "words of this line were already handed over"; it belongs to one line.
+	// Every pass through the line-break branch that counts the line break (the line number that flows back to the head of the
+	// rune loop is not the old one) also takes the offset back to zero - whatever else that pass did (empty line, blanks
+	// only). An offset that survives a line break makes the first word of the next line look like a word in mid-line: a
+	// list marker there is kept as a token.
+	var dec ssa.Instruction
+	for _, call := range core.CallsIn(ts) {
+		if core.StaticCalleeName(call.Common()) == "unicode/utf8.DecodeRune" {
+			dec = call.(ssa.Instruction)
+		}
+	}
+	if dec == nil {
+		return
+	}
+	var header *ssa.BasicBlock
+	for d := dec.Block(); d != nil && header == nil; d = d.Idom() {
+		for _, pr := range d.Preds {
+			if d.Dominates(pr) {
+				header = d
+			}
+		}
+	}
+	if header == nil {
+		return
+	}
+	var linePhi *ssa.Phi
+	var offPhis []*ssa.Phi
+	isOffsetArg := func(ph *ssa.Phi) bool {
+		web := map[ssa.Value]bool{}
+		var grow func(x ssa.Value)
+		grow = func(x ssa.Value) {
+			if web[x] {
+				return
+			}
+			web[x] = true
+			if refs := x.Referrers(); refs != nil {
+				for _, r := range *refs {
+					if p2, ok := r.(*ssa.Phi); ok {
+						grow(p2)
+					}
+				}
+			}
+		}
+		grow(ph)
+		for _, ho := range hos {
+			f := ho.call.Call.StaticCallee()
+			for i, a := range ho.call.Call.Args {
+				if web[a] && f != nil && i < len(f.Params) && !isLineParam(f, i, 0) {
+					return true
+				}
+			}
+		}
+		return false
+	}
+	for _, in := range header.Instrs {
+		ph, ok := in.(*ssa.Phi)
+		if !ok {
+			break
+		}
+		if bt, isB := ph.Type().Underlying().(*types.Basic); !isB || bt.Kind() != types.Int {
+			continue
+		}
+		if flowsToLine(ph) {
+			linePhi = ph
+		} else if isOffsetArg(ph) {
+			offPhis = append(offPhis, ph)
+		}
+	}
+	if linePhi == nil || len(offPhis) == 0 {
+		c.R.Count("R06.10:offset variables of the rune loop", 0)
+		return
+	}
+	c.R.Count("R06.10:offset variables of the rune loop", len(offPhis))
+	var zero func(v ssa.Value, own *ssa.Phi, depth int) bool
+	zero = func(v ssa.Value, own *ssa.Phi, depth int) bool {
+		if depth > 6 {
+			return false
+		}
+		if k, ok := core.ConstInt(v); ok {
+			return k == 0
+		}
+		if ph, ok := v.(*ssa.Phi); ok && ph != own && isNL(ph.Block()) {
+			for _, e := range ph.Edges {
+				if !zero(e, own, depth+1) {
+					return false
+				}
+			}
+			return true
+		}
+		return false
+	}
+	for _, off := range offPhis {
+		nEdges, bad := 0, ""
+		for k, pb := range header.Preds {
+			if !header.Dominates(pb) || !isNL(pb) {
+				continue
+			}
+			if linePhi.Edges[k] == ssa.Value(linePhi) {
+				continue // the line break was not counted on this path (held back for a hyphenated word)
+			}
+			nEdges++
+			if !zero(off.Edges[k], off, 0) {
+				bad = "on a path through the line-break branch that counts the line break the offset that flows back to the head of the loop is " + valName(off.Edges[k]) + ", not 0"
+			}
+		}
+		c.R.Check(bad == "" && nEdges > 0, "R06.10", "tokenizeStream: a counted line break takes the position offset of the line back to zero", p.Pos(off.Pos()),
+			fmt.Sprintf("%d ways back to the head of the rune loop from the line-break branch with the line count advanced: the offset is 0 on each", nEdges),
+			bad+": the mark \"words of this line were already handed over\" survives the line break (a line with blanks only, an empty line), and a list marker at the start of the next line is kept as a token")
+	}
 }
 
 // checkMarkerTableDecides: R06.8. The property lists "1.", "a)", "iv.", "3.1." as markers: the closing character is
